@@ -1,6 +1,6 @@
 From Coq Require Import List Arith Lia Bool.
 Import ListNotations.
-Require Import ScanFull InstsFull ObligGroups C11Groups.
+Require Import ScanFull InstsFull ObligGroups C11Groups Counting.
 
 (* C01, "consequently ... every FutureGroup / StreamGroup stream yields its next item or ends once its children have made the progress that permits
    it": the groups as an instance of ScanFull.Section Live.  Unlike join / merge / zip a group is not fixed-arity: members come and go, a slot is
@@ -541,12 +541,6 @@ Print Assumptions group_next_result.
 (* scripts of futures: Pending* then Ready *)
 Fixpoint goodfg (sc: list step) : bool :=
   match sc with [] => false | s :: rest => match answer s with APend => goodfg rest | AReady _ => true | _ => false end end.
-Definition nsome (rs: list out) : nat := length (filter (fun o => match o with ONone => false | _ => true end) rs).
-Definition nnone (rs: list out) : nat := length (filter (fun o => match o with ONone => true | _ => false end) rs).
-Lemma nsome_app a b : nsome (a ++ b) = nsome a + nsome b.
-Proof. unfold nsome. rewrite filter_app, app_length. reflexivity. Qed.
-Lemma nnone_app a b : nnone (a ++ b) = nnone a + nnone b.
-Proof. unfold nnone. rewrite filter_app, app_length. reflexivity. Qed.
 
 (* C: members held + outputs yielded so far; Z: the number of times None has been returned, unless the group is empty; B: a bound on every script length.  Invariant of polls and wake-ups (not of inserts and removes) *)
 Definition Rf (C: nat) (Z: nat * nat) (B: nat) (s: gst) (sc: list (list step)) (rs: list out) : Prop :=
@@ -747,10 +741,6 @@ Print Assumptions fgroup_drains.
 (* scripts of streams: (Pending | Item)* then End *)
 Fixpoint goodsg (sc: list step) : bool :=
   match sc with [] => false | s :: rest => match answer s with APend | AItem _ => goodsg rest | AEnd => true | _ => false end end.
-Definition nitems (sc: list step) : nat := length (filter (fun st => match answer st with AItem _ => true | _ => false end) sc).
-Definition items_total (scs: list (list step)) : nat := list_sum (map nitems scs).
-Lemma list_sum_upd {A} (f: A -> nat) (l: list A) i x d : i < length l -> list_sum (map f (upd l i x)) + f (nth i l d) = list_sum (map f l) + f x.
-Proof. unfold list_sum. revert i. induction l as [|y l IH]; intros [|i] Hi; cbn in *; try lia. specialize (IH i ltac:(lia)). lia. Qed.
 Lemma okg_goodsg sc : (forall st, In st sc -> okg true (answer st)) -> goodg sc = true -> goodsg sc = true.
 Proof.
   induction sc as [|x rest IH]; intros Hok Hg; [discriminate|]. cbn [goodg goodsg] in *.
